@@ -178,7 +178,7 @@ def _cmp_ud(cmp, a, b):
     cmp.check("user_defined", a._data.get("ccsds_user_defined", {}) == b._data.get("ccsds_user_defined", {}), f"{b._data.get('ccsds_user_defined')}")
 
 
-def _round_trip(c, label, obj, compare, by_config=False, **kw):
+def _round_trip(c, label, obj, compare, by_config=False, redump_kw=None, **kw):
     """dumps -> loads -> compare, in both encodings (chosen by argument, or by the configured default); the two decoded objects compared with each other; what was read
     is written again"""
     from beyond.io import ccsds
@@ -211,7 +211,7 @@ def _round_trip(c, label, obj, compare, by_config=False, **kw):
         compare(cmp, obj, back[fmt])
         cmp.emit(c, f"{label}.{fmt}")
         try:
-            again = ccsds.dumps(back[fmt], fmt=fmt)
+            again = ccsds.dumps(back[fmt], fmt=fmt, **(redump_kw or {}))
         except Exception as e:
             c.ensure(f"{label}.{fmt}.redump_raises:{type(e).__name__}", False)
             continue
@@ -590,3 +590,54 @@ def _(c):
         c.ensure("azimuth_back_is_the_value_plus_whole_turns", c.eq(back, v + 2 * c.pi * turns, atol=1e-9))
     else:
         c.ensure("elevation_degrees_then_back", c.eq(w.np.radians(value), v))
+
+
+# ---------------------------------------------------------------------------------------------------------------------
+# frames about a Lagrange point ("frame and centre": the centre's name is written in words -- SUN EARTH L2 -- and read back in one)
+
+def _grid_lagrange(tier, rng):
+    """Lagrange points L1..L5 of the Sun-Earth pair (analytical Sun; axes of EME2000) x message {OPM without the optional osculating elements, OEM of 4 points}"""
+    for kind in (1, 2, 3, 4, 5):
+        for msg in (0, 1):
+            yield {"kind": kind, "msg": msg}
+
+
+_LAGR = {}
+
+
+@contract("C13", "lagrange_centre", funcs=[f"{CC}.commons:dump_kvn_meta_odm", f"{CC}.commons:dump_xml_meta_odm", f"{CC}.opm:_loads_kvn", f"{CC}.opm:_loads_xml",
+                                           f"{CC}.oem:_loads_kvn", f"{CC}.oem:_loads_xml"], grid=_grid_lagrange, level="bounded")
+def _(c):
+    """bounded: a state (OPM) or an ephemeris (OEM) given about a Lagrange point of the Sun-Earth pair is read back, from KVN and from XML, in the same frame about the
+    same centre with the same epoch(s) and coordinates; the two encodings decode to the same object"""
+    from beyond.env import solarsystem as sol
+    from beyond.frames.lagrange import lagrange
+    from beyond.frames.orient import EME2000
+    from beyond.orbits import StateVector, Ephem
+    from beyond.dates import timedelta
+    kind = c.integer("kind")
+    if kind not in _LAGR:
+        _LAGR[kind] = lagrange(sol.get_frame("Sun"), sol.get_frame("Earth"), kind, orientation=EME2000)
+    fl = _LAGR[kind]
+    date = _date(0, "UTC")
+    x = [1.0e8 + 1e6 * kind, 2.0e7, -3.0e6, 10.5, -20.25, 30.125]
+    if c.integer("msg") == 0:
+        sv = StateVector(x, date, "cartesian", fl)
+        sv.name, sv.cospar_id = "L-SAT", "2020-001A"
+
+        def compare(cmp, a, b):
+            _cmp_state(cmp, a, b)
+        # (the optional osculating elements are not defined about a massless point: written without them, both times)
+        _round_trip(c, "opm", sv, compare, redump_kw={"kep": False}, kep=False)
+    else:
+        pts = [StateVector([v + 100.0 * j * (i + 1) for i, v in enumerate(x)], date + timedelta(seconds=60 * j), "cartesian", fl) for j in range(4)]
+        eph = Ephem(pts)
+        eph.name, eph.cospar_id = "L-SAT", "2020-001A"
+
+        def compare(cmp, a, b):
+            cmp.check("points", len(a) == len(b), f"{len(a)} {len(b)}")
+            for pa, pb in zip(a, b):
+                cmp.check("epoch", _same_date(pa.date, pb.date), f"{pa.date!r} {pb.date!r}")
+                cmp.check("frame_centre", pa.frame.name == pb.frame.name and pa.frame.center.name == pb.frame.center.name, f"{pa.frame} {pb.frame}")
+                cmp.check("coordinates", bool(np.all(np.abs(np.asarray(pa, dtype=float) - np.asarray(pb, dtype=float)) <= 1.0e-3 * (1 + 1e-9))), "")
+        _round_trip(c, "oem", eph, compare)
